@@ -23,7 +23,51 @@ func IntervalCanonicity(p *core.Program, r *core.Report, rule string) {
 		return strings.Contains(t.String(), "np-guard/models/pkg/interval.CanonicalSet")
 	}
 	r.Check(isLib(fld.Type()), rule, "common.PortSet.Ports has the library's canonical interval-set type", p.Pos(fld.Pos()), fld.Type().String(), "the port representation is no longer the library's CanonicalSet: canonicity would be this module's obligation")
-	fromLib := func(info *types.Info, e ast.Expr) bool {
+	var curBody *ast.BlockStmt
+	var fromLibD func(info *types.Info, e ast.Expr, depth int) bool
+	fromLibD = func(info *types.Info, e ast.Expr, depth int) bool {
+		if id, ok := ast.Unparen(e).(*ast.Ident); ok && curBody != nil && depth < 3 {
+			// a local of the function every assignment of which is a library value
+			o, isVar := info.ObjectOf(id).(*types.Var)
+			if !isVar || o.IsField() || o.Parent() == nil || o.Pkg() == nil || o.Parent() == o.Pkg().Scope() {
+				return false
+			}
+			nAs, good := 0, true
+			ast.Inspect(curBody, func(m ast.Node) bool {
+				switch x := m.(type) {
+				case *ast.AssignStmt:
+					for i, l := range x.Lhs {
+						if lid, ok := ast.Unparen(l).(*ast.Ident); ok && info.ObjectOf(lid) == o {
+							nAs++
+							if len(x.Rhs) != len(x.Lhs) || !fromLibD(info, x.Rhs[i], depth+1) {
+								good = false
+							}
+						}
+					}
+				case *ast.ValueSpec:
+					for i, nm := range x.Names {
+						if info.ObjectOf(nm) == o && i < len(x.Values) {
+							nAs++
+							if !fromLibD(info, x.Values[i], depth+1) {
+								good = false
+							}
+						}
+					}
+				case *ast.UnaryExpr:
+					if lid, ok := ast.Unparen(x.X).(*ast.Ident); ok && x.Op.String() == "&" && info.ObjectOf(lid) == o {
+						good = false
+					}
+				case *ast.RangeStmt:
+					for _, l := range []ast.Expr{x.Key, x.Value} {
+						if lid, ok := l.(*ast.Ident); ok && info.ObjectOf(lid) == o {
+							good = false
+						}
+					}
+				}
+				return true
+			})
+			return good && nAs > 0
+		}
 		c, ok := ast.Unparen(e).(*ast.CallExpr)
 		if !ok {
 			return false
@@ -31,9 +75,11 @@ func IntervalCanonicity(p *core.Program, r *core.Report, rule string) {
 		fn := core.Callee(info, c)
 		return fn != nil && fn.Pkg() != nil && strings.HasSuffix(fn.Pkg().Path(), "models/pkg/interval")
 	}
+	fromLib := func(info *types.Info, e ast.Expr) bool { return fromLibD(info, e, 0) }
 	n := 0
 	for _, fd := range p.Funcs {
 		info := fd.Pkg.TypesInfo
+		curBody = fd.Decl.Body
 		ast.Inspect(fd.Decl.Body, func(nd ast.Node) bool {
 			switch x := nd.(type) {
 			case *ast.AssignStmt:
